@@ -182,6 +182,7 @@ DESCS = {
     "role on a continuation line": ["Uses the helper", ":class:`Codec` to do it."],
     "list in the description": ["Choices:", "", "- one", "- two"],
     "two blank lines inside": ["Snippet:", "", "", "after two blank lines."],
+    "parenthesis and colon in the text": ["The value (see notes): more."],
 }
 GOOGLE_ONLY_DESCS = {"two blank lines inside"}  # two blank lines end a Numpy block, and one ends a Sphinx field
 
@@ -349,6 +350,20 @@ def _roundtrip_table(prog: Program, ctx: Ctx) -> None:  # noqa: PLR0912,PLR0915
             n += 1
             ctx.ob("R6", f"signature|{style}|{kind}|defaults|warn_unknown_params={warn}", gotd == [("x", "1"), ("y", None)],
                    f"{style}: defaults of the {kind} items x (signature default 1) and y (none), warn_unknown_params={warn}: {gotd}", where(fn))
+    # Numpy: several names documented by one item (`x, y`) without a type: each takes its own annotation and default from the signature
+    fn = prog.function("_griffe.docstrings.numpy.parse_numpy")
+    par2 = parent({"x": ("SIG_X", "1"), "y": ("SIG_Y", None)})
+    lines2 = ["Summary.", "", "Parameters", "----------", "x, y", "    Both of them."]
+    ds2 = Obj(dcls, {"lines": lines2, "value": "\n".join(lines2), "parent": par2, "lineno": 1, "endlineno": 6}, label="docstring")
+    it.steps = 0
+    try:
+        out2 = it.call(fn, ds2)
+        got2: object = [(x.attrs.get("name"), x.attrs.get("annotation"), x.attrs.get("value")) for s_ in out2 if s_.cls.name != "DocstringSectionText" for x in s_.attrs["value"]]
+    except Raised as r:
+        got2 = f"raises {r.exc}"
+    n += 1
+    ctx.ob("R6", "signature|numpy|parameters|two names in one item", got2 == [("x", "SIG_X", "1"), ("y", "SIG_Y", None)],
+           f"numpy: item `x, y` without a type on def f(x: SIG_X = 1, y: SIG_Y): {got2}; each name has its own annotation and default in the signature", where(fn))
     # Sphinx: field lists (order of sections is not part of the property for this style)
     fn = prog.function("_griffe.docstrings.sphinx.parse_sphinx")
 
@@ -376,6 +391,15 @@ def _roundtrip_table(prog: Program, ctx: Ctx) -> None:  # noqa: PLR0912,PLR0915
             gd = got
         n += 1
         ctx.ob("R6", f"sphinx|{dname}|type {type_form}", gd == want, f"sphinx: description with {dname}, type given as {type_form}: {gd}" + ("" if gd == want else f"; written: {want}"), where(fn))
+    # Sphinx: a field ends at a blank line followed by unindented text (reStructuredText's rule); a blank line followed by indented text continues it
+    for tail, want_desc, want_text in ((["", "Trailing paragraph."], "The x.", "Summary. Trailing paragraph."),
+                                       (["", "    Second paragraph of the field."], "The x. Second paragraph of the field.", "Summary.")):
+        got = parse("sphinx", ["Summary.", "", ":param x: The x.", *tail], parent({"x": ("SIG_X", None)}))
+        gd = {g_[0]: (squash(g_[1]) if g_[0] == "text" else [(a, b, squash(c)) for a, b, c in g_[1]]) for g_ in got} if isinstance(got, list) else got
+        want = {"text": want_text, "parameters": [("x", "SIG_X", want_desc)]}
+        n += 1
+        ctx.ob("R6", f"sphinx|text after the last field|{'indented' if tail[1].startswith(' ') else 'unindented'}", gd == want,
+               f"sphinx: `:param x: The x.`, a blank line, then {tail[1]!r}: {gd}; written: {want}", where(prog.function("_griffe.docstrings.sphinx.parse_sphinx")))
     # annotations omitted from Returns / Yields / Receives come from the matching slot of the signature's return annotation
     def ann(kind: str, elements: list | None = None, item: object = None) -> Obj:
         sl: object = Obj(None, {"elements": elements or [], "__closed__": True}, label="slice") if kind in ("generator", "tuple") else item
